@@ -274,6 +274,47 @@ def anyhist(seed, nepisodes, prefix, tecmp=True):
         yield {'id': '%s%d' % (prefix, i), 'comp': 'dec', 'solo': True, 'ops': ops}
 
 
+# ------------------------------------------------------------------ C02
+def arbitrary(seed, nepisodes, prefix, big=True):
+    """Arbitrary byte strings of every length up to 64 KiB (random, CMP-looking, TECMP-looking, mutated well-formed
+    frames), in histories on one decoder; packets are kept and re-read after the decoder is destroyed."""
+    rng = random.Random(seed)
+    for i in range(nepisodes):
+        s = Sender(rng, rng.randrange(65536), rng.randrange(256), rng.choice([0, 65534]))
+        ops = [{'op': 'new'}]
+        budget = 300000
+        for _ in range(rng.choice([5, 20, 40])):
+            r = rng.random()
+            if r < 0.2:
+                n = rng.choice([0, 1, 7, 8, 9, 23, 24, 25, 27, 28, 29, 40, 100, 1500] + ([9000, 65535, 65536] if big else []))
+                b = wire.rbytes(rng, n)
+                if n and rng.random() < 0.5:
+                    b[0] = rng.choice([0, 1, 2])
+            elif r < 0.4:
+                b = tecmp_good(rng)
+                if rng.random() < 0.5:
+                    b = mutate(rng, b)
+            elif r < 0.5:
+                b = tecmp_frame(rng)
+            else:
+                fr = s.message_frames(rng, big and rng.random() < 0.2)
+                f, _ = rng.choice(fr)
+                b = mutate(rng, f) if rng.random() < 0.7 else f
+                if rng.random() < 0.2 and len(b) > 24:
+                    # a length field at an extreme
+                    k = rng.choice([22, 23])
+                    b = list(b)
+                    b[k] = rng.choice([0, 0xFF])
+            budget -= len(b)
+            if budget < 0:
+                break
+            op = {'op': 'decode', 'in': b, 'place': rng.randrange(2)}
+            if rng.random() < 0.03:
+                op = {'op': 'decode', 'in': b, 'null': True}
+            ops.append(op)
+        yield {'id': '%s%d' % (prefix, i), 'comp': 'dec', 'recheck': True, 'ops': ops}
+
+
 # ------------------------------------------------------------------ C04
 def inconsistent(rng, kind):
     """Payloads whose inner structure disagrees with their length, or that carry bus-error flags."""
